@@ -1027,12 +1027,12 @@ def _():
 def _():
     out = ""
     for nm in ("_shift", "_unshift"):
+        import kernels as K
         fn = find_def(BC, nm)
-        ret = stmts_of(fn)[0]
         argn = [a.arg for a in fn.args.args]
-        env = Env(subst={"np.array((crop_size, crop_size))": ("crop_size", INT)},
-                  vars={argn[0]: ("v", INT), argn[1]: ("anchor", INT), "crop_size": ("crop_size", INT)})
-        v, t = tr(ret.value, env)
+        env = Env(subst={f"np.array(({argn[2]}, {argn[2]}))": ("crop_size", INT)},
+                  vars={argn[0]: ("v", INT), argn[1]: ("anchor", INT), argn[2]: ("crop_size", INT)})
+        v, t = tr(K.inlined_return(fn), env)
         out += f"/-- `{nm}` per component -/\ndef {nm.strip('_')} (v anchor crop_size : Int) : Int := {v}\n"
     return out
 
